@@ -1,0 +1,18 @@
+//go:build !verif
+
+package yqlib
+
+import (
+	"io"
+	"os"
+)
+
+// Empty stand-ins for the hook points of the model-checking harness (see verif_hooks.go, build tag "verif").
+
+func verifStep(_ string) error { return nil }
+
+func verifYield(_ string) {}
+
+func verifCopyStep(_ *os.File, _ *os.File) error { return nil }
+
+func verifWrapWriter(w io.Writer) io.Writer { return w }
